@@ -32,6 +32,8 @@ type Env struct {
 	pkg   *types.Package
 	fc    *FuncContract
 	depth int
+	next  *Env // back-edge values (for `next.x` in loop ghost updates)
+	cur   *State // the non-old state while translating inside old(...)
 }
 
 type transErr string
@@ -487,6 +489,12 @@ func (e *Env) selector(x *ESel) TV {
 			}
 			tfail("ghost %s needs arguments", x.Name)
 		}
+		if id.Name == "next" {
+			if e.next == nil {
+				tfail("next.%s is only available in `loop k backedge set`", x.Name)
+			}
+			return e.next.ident(x.Name)
+		}
 		if id.Name == "args" {
 			if tv, ok := e.bind["args."+x.Name]; ok {
 				return tv
@@ -684,7 +692,18 @@ func (e *Env) call(x *ECall) TV {
 		if e.old == nil {
 			tfail("old() not available here")
 		}
-		return e.with(e.old).tr(x.Args[0])
+		ne := e.with(e.old)
+		if e.cur == nil {
+			ne.cur = e.st
+		}
+		return ne.tr(x.Args[0])
+	case "now": // inside old(...): evaluate in the current state again
+		if e.cur == nil {
+			tfail("now() is only meaningful inside old()")
+		}
+		ne := e.with(e.cur)
+		ne.cur = nil
+		return ne.tr(x.Args[0])
 	case "len":
 		v := arg(0)
 		switch u := v.Ty.Underlying().(type) {
